@@ -76,7 +76,11 @@ static void set_passive(LocalNetwork* n, long long k)
   std::vector<GNU_gama::local::Observation*> all;
   for (auto* cl : n->OD.clusters) for (auto* ob : cl->observation_list) all.push_back(ob);
   if (all.empty()) return;
-  all[(size_t)(k % (long long)all.size())]->set_passive();
+  // k >= 1000: the first 2..7 observations of the document at once (unknowns are numbered in the order in which active
+  // observations first mention a point: taking a prefix away renumbers them, and with them whatever index list an
+  // object keeps from its last adjustment)
+  if (k >= 1000) { size_t len = 2 + (size_t)((k - 1000) % 6); for (size_t i = 0; i < len && i + 1 < all.size(); i++) all[i]->set_passive(); }
+  else all[(size_t)(k % (long long)all.size())]->set_passive();
   n->update_observations();
 }
 
@@ -306,7 +310,7 @@ Verdict execute(const Plan& plan, EventLog& log, Stats& st)
       // is decided numerically by the algorithm in force - after a switch the two orders are different inputs)
       bool moved = false; for (auto& c0 : O.changes) if (c0 == "refine" || c0 == "refcoord" || (c0.compare(0, 4, "alg:") == 0 && c0.substr(4) != O.alg0)) moved = true;
       if ((w == 5 || w == 6) && moved) { n++; continue; }
-      std::string c = w == 6 ? fmt("fixpt:%lld", s.arg(2) % 1000) : w == 5 ? fmt("passive:%lld", s.arg(2) % 1000) : w == 0 ? "refine" : w == 1 ? "refcoord" : w == 2 ? "alg:" + (O.changes.empty() ? O.alg0 : O.alg0) : w == 3 ? std::string("alg:") + ALGS[s.arg(2) % 4] : "alg:" + O.alg0;
+      std::string c = w == 6 ? fmt("fixpt:%lld", s.arg(2) % 1000) : w == 5 ? fmt("passive:%lld", s.arg(2) % 1006) : w == 0 ? "refine" : w == 1 ? "refcoord" : w == 2 ? "alg:" + (O.changes.empty() ? O.alg0 : O.alg0) : w == 3 ? std::string("alg:") + ALGS[s.arg(2) % 4] : "alg:" + O.alg0;
       Val r = guarded([&](Val&) { apply_change(net, c); });
       O.changes.push_back(c);
       log.line("%d o%lld change %s %s", n, s.arg(0) % nobj, c.c_str(), r.exc.c_str()); st.add("ops.change"); st.nontrivial = true; st.shape += "net:" + c.substr(0, 7) + ",";
@@ -386,7 +390,10 @@ void generate(Plan& p, Rng& g, const std::string&)
       int r = (int)g.below(10);
       if (r < 3) { s.op = "upd"; s.a.push_back((long long)g.below(4)); }
       else if (r < 5) { s.op = "par"; s.a.push_back((long long)g.below(5)); s.a.push_back((long long)g.below(4)); }
-      else if (r < 7) { s.op = "chg"; long long w = (long long)g.below(8); if (w == 7) w = 5; s.a.push_back(w); s.a.push_back((long long)g.below(w >= 5 ? 1000 : 4)); }
+      else if (r < 7) { s.op = "chg"; long long w = (long long)g.below(8); if (w == 7) w = 5; s.a.push_back(w); s.a.push_back((long long)g.below(w >= 5 ? 1000 : 4));
+        // (unknowns are numbered in the order in which active observations first mention a point: switching off one of the
+        //  FIRST observations renumbers them, and with them whatever index list is kept from the last adjustment)
+        if (w == 5 && g.chance(1, 3)) s.a.back() = g.chance(1, 2) ? (long long)g.below(3) : 1000 + (long long)g.below(6); }
       else query(g.chance(1, 2) ? F0[g.below(9)] : F1[g.below(12)]);
     }
     p.steps.push_back(s);
